@@ -105,6 +105,13 @@ impl BlockCache {
 		}
 	}
 
+	/// Drops every cached entry. Entries are keyed by table id / value-log file
+	/// id and offset, so they are only valid for the files they were read from:
+	/// after a restore those ids are handed out again to different files.
+	pub(crate) fn clear(&self) {
+		self.data.clear();
+	}
+
 	/// Inserts a data block into the cache.
 	pub(crate) fn insert_data_block(&self, table_id: u64, offset: u64, block: Arc<Block>) {
 		self.data.insert((KIND_DATA, table_id, offset).into(), Item::Data(block));
